@@ -39,7 +39,10 @@ func execute(sc *Scenario, choose sched.Chooser) *execResult {
 	if res.deadlock {
 		r.log(M{"e": "deadlock"})
 	}
-	if res.stuck == "" && !res.deadlock && !res.overrun && !sc.NoQuiesce {
+	if res.stuck == "" && !res.deadlock && !res.overrun && r.rootCloseUsed {
+		// the root was closed by the scenario: its Close ran the final pass
+		r.log(M{"e": "quiesce"})
+	} else if res.stuck == "" && !res.deadlock && !res.overrun && !sc.NoQuiesce {
 		// activity has stopped: one more report pass, then an idle one
 		r.log(M{"e": "passb", "p": "final#1", "t": "final"})
 		tally.VerifReportOnce(r.root)
